@@ -342,5 +342,70 @@ pub fn run(ctx: &mut Ctx) {
                 let _ = std::fs::remove_dir_all(&dir);
             }
         }
+        // manifests written with the low-level creator: the format does not fix the position of the
+        // directory pack among the pack infos (first, in the middle, last)
+        for dirpos in 0..3usize {
+            let my = case;
+            case += 1;
+            if !ctx.wants(my) {
+                continue;
+            }
+            let mut crng = rng.fork(my);
+            let dir = ctx.work.join(format!("c12-{}", my));
+            std::fs::create_dir_all(&dir).unwrap();
+            match util::guarded(|| custom_manifest(&dir, dirpos, &mut crng)) {
+                Ok(Ok(path)) => {
+                    one_history(ctx, my, &mut crng, &path, &format!("custom-manifest-dir-at-{}", dirpos), None);
+                    if dirpos > 0 && round % 2 == 0 {
+                        // … and the same manifest inside a container file
+                        let my2 = case;
+                        case += 1;
+                        if ctx.wants(my2) {
+                            let mut files: Vec<std::path::PathBuf> = std::fs::read_dir(&dir).unwrap().filter_map(|e| e.ok().map(|e| e.path())).filter(|p| p.is_file()).collect();
+                            files.sort();
+                            let out = dir.join("concat.jbk");
+                            let outp = camino::Utf8PathBuf::from_path_buf(out.clone()).unwrap();
+                            match util::guarded(|| jbk::tools::concat(&files, &outp)) {
+                                Ok(Ok(())) => one_history(ctx, my2, &mut crng, &out, &format!("concat-of-custom-manifest-dir-at-{}", dirpos), None),
+                                other => ctx.fail(my2, "concat", &format!("tools::concat failed: {:?}", other.map(|r| r.map_err(|e| util::err_kind(&e))))),
+                            }
+                        }
+                    }
+                }
+                other => ctx.fail(my, "create", &format!("creation of a custom manifest failed: {:?}", other)),
+            }
+            let _ = std::fs::remove_dir_all(&dir);
+        }
     }
+}
+
+/// two content packs, an (empty) directory pack and a manifest listing them with the directory pack
+/// at position `dirpos`; returns the path of the manifest file
+fn custom_manifest(dir: &Path, dirpos: usize, rng: &mut Rng) -> Result<std::path::PathBuf, String> {
+    let open = |p: &Path| std::fs::OpenOptions::new().read(true).write(true).create(true).truncate(true).open(p).map_err(|e| format!("io:{e}"));
+    let mut infos = vec![];
+    for k in 0..2u16 {
+        let p = dir.join(format!("m.c{}.jbkc", k + 1));
+        let p8 = camino::Utf8PathBuf::from_path_buf(p).unwrap();
+        let mut cp = jbk::creator::ContentPackCreator::new(&p8, jbk::PackId::from(k + 1), util::VENDOR, Default::default(), jbk::creator::Compression::None).map_err(|e| format!("{e}"))?;
+        let n = 1 + rng.below(3);
+        for _ in 0..n {
+            let len = rng.below(200) as usize;
+            cp.add_content(Box::new(std::io::Cursor::new(rng.bytes(len))), Default::default()).map_err(|e| format!("{e}"))?;
+        }
+        let (_f, info) = cp.finalize().map_err(|e| format!("{e}"))?;
+        infos.push((info, format!("m.c{}.jbkc", k + 1)));
+    }
+    let dp = jbk::creator::DirectoryPackCreator::new(jbk::PackId::from(0), util::VENDOR, Default::default());
+    let mut df = open(&dir.join("m.jbkd"))?;
+    let dinfo = dp.finalize().map_err(|e| format!("{e}"))?.write(&mut df).map_err(|e| format!("{e}"))?;
+    infos.insert(dirpos.min(infos.len()), (dinfo, "m.jbkd".to_string()));
+    let mut mc = jbk::creator::ManifestPackCreator::new(util::VENDOR, Default::default());
+    for (info, loc) in infos {
+        mc.add_pack(info, loc);
+    }
+    let mpath = dir.join("m.jbkm");
+    let mut mf = open(&mpath)?;
+    mc.finalize(&mut mf).map_err(|e| format!("{e}"))?;
+    Ok(mpath)
 }
